@@ -9,6 +9,7 @@ import json, os, sys, time, re, hashlib
 VERIF = os.path.dirname(os.path.dirname(os.path.abspath(__file__)))
 REPO = os.environ.get('VERIF_REPO', '/repo')
 KNOWN_FILE = os.path.join(VERIF, 'known_findings.json')
+EVID_DIR = os.environ.get('VERIF_EVIDENCE_DIR') or os.path.join(VERIF, 'evidence')   # redirected only by the seed-matrix tool
 
 
 class AnalysisError(Exception):
@@ -130,8 +131,8 @@ class Report:
             'violations': len(viol),
         }
         ev['coverage'].update(self.extra)
-        os.makedirs(os.path.join(VERIF, 'evidence'), exist_ok=True)
-        with open(os.path.join(VERIF, 'evidence', self.pid + '.json'), 'w') as f:
+        os.makedirs(EVID_DIR, exist_ok=True)
+        with open(os.path.join(EVID_DIR, self.pid + '.json'), 'w') as f:
             json.dump(ev, f, indent=1, sort_keys=True)
             f.write('\n')
         nfun = len(self.analysed['functions'])
@@ -141,7 +142,7 @@ class Report:
         for r, n in sorted(self.analysed['rule_instances'].items()):
             print('   rule %-28s %4d instance(s)' % (r, n))
         if viol:
-            replay = os.path.join(VERIF, 'evidence', self.pid + '.violation.json')
+            replay = os.path.join(EVID_DIR, self.pid + '.violation.json')
             with open(replay, 'w') as f:
                 json.dump({'property': self.pid, 'violations': [o.as_dict() for o in viol]}, f, indent=1)
                 f.write('\n')
